@@ -922,13 +922,18 @@ def violation_search(pid, tier, rng, stats, disagreements, rep):
         return found
     if SPEC_RUNNER[0] is None:
         # the tables are the committed ones: the regular run already was the comparison with the specification side
-        return focused_search(pid, rng, stats, rep)
+        found = focused_search(pid, rng, stats, rep)
+        if not found:
+            found += syntax_volume_search(pid, rng, stats, rep)
+        return found
     old = vlib.run_model
     vlib.run_model = lambda lines, runner=None: old(lines, runner=SPEC_RUNNER[0])
     try:
         res = run_property(pid, 'quick' if tier == 'quick' else 'thorough', rng, {})
         found = res['violations']
         found += focused_search(pid, rng, stats, rep)
+        if not found:
+            found += syntax_volume_search(pid, rng, stats, rep)
     finally:
         vlib.run_model = old
     return found
@@ -938,6 +943,43 @@ _ARITH = ['Add', 'Subtract', 'Multiply', 'Divide', 'Modulo', 'Negative', 'Number
 FOCUS_ARMS = {'C05': _ARITH + ['Pow', 'Abs', 'Floor', 'Ceil', 'Truncate', 'Round', 'Sqrt'], 'C07': _ARITH,
               'C09': _ARITH + ['Pow', 'Abs', 'Floor', 'Ceil', 'Truncate', 'Round', 'Sqrt', 'Sign', 'Factorial'],
               'C11': ['Min', 'Max', 'Avg', 'Med', 'Gcd', 'Lcm'], 'C12': ['Multiply']}
+
+def syntax_volume_search(pid, rng, stats, rep):
+    """a tokenizer / parser / entry point no longer has the recorded shape: a large volume of random well-formed expressions
+       (depth <= 5, juxtaposition, postfix runs, signs), their one- and two-token mutants, all token sequences of length 5 over
+       the small alphabet and the fixed syntax streams, in the affected evaluators, against the specification side"""
+    evs = []
+    for ev, e in (rep.get('evaluators') or {}).items():
+        if not e.get('regenerated', True) or e.get('engine_changed') or not e.get('entry_point_shape_ok', True):
+            evs.append(ev)
+    if not rep.get('ok', True) or (rep.get('notes') and not evs):
+        evs = list(EVS)
+    if not evs or pid in ('C16', 'C17', 'C18'):
+        return []
+    cs = (s_wf('thorough', rng, evs=evs, nt=12000, depth=5) + s_mut('thorough', rng, evs=evs, nt=12000) +
+          s_tokseq('thorough', rng, evs=evs, qlen=5, tlen=5) + s_oppairs('thorough', rng, evs=evs) + s_nested('quick', rng, evs=evs) +
+          s_maxlen('quick', rng, evs=evs) + s_longlits('quick', rng, evs=evs) + s_badlits('quick', rng, evs=evs) + s_nearmiss_chars('quick', rng, evs=evs))
+    for ev in evs:          # juxtaposition chains with suffixes on every factor
+        As = ['3', '(3)', gen.F1[ev][0] + '(3)'] + (['3!'] if gen.HAS_BANG[ev] else [])
+        Ms = ['(2)', gen.F1[ev][0] + '(2)', '2'] + (['⌊2⌋'] if gen.HAS_FLOORBR[ev] else [])
+        sf = ['', '²', '^2'] + (['!', '!!'] if gen.HAS_BANG[ev] else []) + (['°'] if gen.POSTFIX5[ev] else [])
+        for A in As:
+            for M in Ms:
+                for C in Ms:
+                    for s1 in sf:
+                        for s2 in sf:
+                            for c in ['%s', '7-%s', '-%s', '2^%s']:
+                                cs.append(case(ev, 'eval', None, c % (A + M + s1 + C + s2)))
+    cs = list(dict.fromkeys(cs))
+    vlib.log('syntax volume search: %d cases in %s' % (len(cs), ','.join(evs)))
+    st = {}
+    cases, outs, model = run_streams(cs, st, budget=10**7)
+    stats['evaluations'] = stats.get('evaluations', 0) + st.get('evaluations', 0)
+    res = std_judge(pid, cases, outs, model)
+    found = res['violations']
+    for v in found:
+        v['why'] = 'syntax volume search: ' + v['why']
+    return found
 
 def focused_search(pid, rng, stats, rep):
     """the translator localised a change in an evaluator's `eval` (or a new constant anywhere): dense grids on the constructs
@@ -1544,6 +1586,18 @@ def run_C11(tier, rng, stats):
                     # sums of doubles are order dependent once partial sums are inexact (stated in the theorem); not a violation
                     if c2 != c and not (big and ev in ('f64', 'number') and f in ('avg', 'med', 'median')):
                         permpairs.append((c, c2, 'argument order'))
+            if f in ('gcd', 'lcm'):
+                # Euclid's worst case (Lame): consecutive Fibonacci numbers need the most division steps (91 for F92, F91)
+                fib = [1, 1]
+                while fib[-1] < 2 ** 63:
+                    fib.append(fib[-1] + fib[-2])
+                fib = [x for x in fib if x < 2 ** 63]
+                for k in range(40, len(fib)):
+                    for L in ([fib[k], fib[k - 1]], [fib[k - 1], fib[k]], [fib[k], -fib[k - 1]], [fib[k - 1], fib[k], fib[k - 2]]) + \
+                             (([3 * fib[k - 2], 3 * fib[k - 3]],) if 3 * fib[k - 2] < 2 ** 63 else ()):
+                        L = [str(v) for v in L]
+                        c = case(ev, 'eval', None, f + '(' + ','.join(agg_arg(v) for v in L) + ')')
+                        cs.append(c); meta[c] = (ev, f, L)
             cs.append(case(ev, 'eval', None, f + '()'))
             cs.append(case(ev, 'eval', None, f + '(1,)'))
             cs.append(case(ev, 'eval', None, f + '(,1)'))
